@@ -27,7 +27,7 @@ from ..models import streams as SM
 
 PROPERTY = "C10"
 LIMITS = [0, 1, 2]
-ALPHABET = "open next local / peer stream (+-END_STREAM); END_STREAM each way; reset each way; push + activation; peer SETTINGS MCS in {0,1,2}; update_settings MCS in {0,1,2} + ACK later; cleanup"
+ALPHABET = "open next local / peer stream (+-END_STREAM); END_STREAM each way; reset each way; reset by the library itself (send-window overflow); late HEADERS on a stream we reset; push + activation; peer SETTINGS MCS in {0,1,2}; update_settings MCS in {0,1,2} + ACK later; cleanup"
 BOUNDS = {"quick": "depth 6, <=3 streams per initiator", "thorough": "depth 8 (or time budget, reported), <=4 streams per initiator"}
 sb = H.stateless_block
 BIG = 10 ** 9
@@ -89,6 +89,12 @@ class Spec:
                 acts += ["rx:activate:%d" % sid, "rx:activate:%d:es" % sid]
             acts.append("l:rst:%d" % sid)
             acts.append("rx:rst:%d" % sid)
+            if s.state in (SM.OPEN, SM.HC_REMOTE):
+                acts.append("rx:wuover:%d" % sid)     # the peer overflows our send window: the library resets the stream itself
+        for sid, s in sorted(m.streams.items()):
+            if s.state == SM.CLOSED and s.closed_by == "send_rst" and not s.local_init:
+                acts.append("rx:late:%d" % sid)       # the peer's HEADERS + END_STREAM that raced our reset: opens nothing
+                break
         for v in LIMITS:
             acts.append("rx:mcs:%d" % v)
             acts.append("l:mcs:%d" % v)
@@ -226,6 +232,21 @@ class Spec:
             o = h.api("reset_stream", int(parts[2]))
             if o.kind != "ok":
                 bad("reset-refused", "%s -> %s" % (lab, o.brief()))
+        elif parts[:2] == ["rx", "wuover"]:
+            sid = int(parts[2])
+            o = h.rx([wire.window_update(sid, 2 ** 31 - 1)])
+            if o.kind != "ok" or not any(f.type == wire.RST_STREAM and f.sid == sid for f in o.frames):
+                bad("window-overflow-not-a-stream-error", "%s -> %s" % (lab, o.brief()))
+                st.dead = True
+                return Step("wuover-unexpected", viols, prune=True)
+        elif parts[:2] == ["rx", "late"]:
+            sid = int(parts[2])
+            o = h.rx([wire.headers(sid, sb(H.TRAILERS), es=True)])
+            if o.kind != "ok":
+                bad("late-frame-rejected", "%s: %d inbound streams open, acknowledged local limit %d; HEADERS on a stream we reset opens nothing "
+                    "but -> %s %s" % (lab, n_in, st.local_limit, o.brief(), o.msg), exc=o.exc_name)
+                st.dead = True
+                return Step("late-rejected", viols, prune=True)
         elif parts[:2] == ["rx", "rst"]:
             o = h.rx([wire.rst_stream(int(parts[2]), 8)], ("rst", int(parts[2])))
             if o.kind != "ok":
